@@ -582,10 +582,33 @@ PROPS["C06"] = dict(family="quote", args={"only": "ids"}, level="exploration", d
                     text="IDs as keys of the board.", note="Trusted: TLC, Json module.")
 
 
+# ---------------------------------------------------------------------------------- vars (C13)
+def corrupt_vars(lines, pid):
+    for e in lines:
+        if e.get("ev") == "prog" and e.get("err") == 0 and e["uses"]:
+            e["uses"][0]["got"] += "?"
+            return "one compiled use-site text altered"
+    return None
+
+
+FAMILIES["vars"] = dict(vdrive="vars", trace_module="TraceD2Vars", trace_cfg="TraceD2Vars.cfg", corrupt=corrupt_vars, engine="TraceD2Vars", args={"n": "1500"}, chunk=3000, heap="4g")
+PROPS["C13"] = dict(family="vars", level="model_checking", design_ref="4.4",
+                    technique="TLA+ model of scoped resolution (Resolve: innermost definition; Expected: concatenation of pieces, single quotes literal, undefined = error; Twin: textual substitution) model checked by TLC over every 3-scope program (TwinAgrees, InnermostWins, Inherited), and evaluated by TLC on generated programs compiled by the real compiler together with their textually substituted twins",
+                    base=dict(quick=[dict(module="D2Vars", cfg="D2Vars.cfg")], thorough=[dict(module="D2Vars", cfg="D2Vars.cfg")]),
+                    rule=("the program space is FIXED (program #i from seed i, 12,000 programs; quick takes the 1,500 VERIF_SEED selects): 1-5 scopes (the file, containers, layers incl. nested ones, scenarios) each defining a random subset of 5 names (two of them fields of a nested map) "
+                          "with 14 values (words, blanks inside, numbers, decimals, dashes, unicode), 1-6 use sites (label, tooltip, connection label) written unquoted, double- or single-quoted and made of 1-3 pieces "
+                          "(reference alone, literal prefix such as '0.' or 'pre ', suffix, two references around a literal); 15% of the programs contain one reference to an undefined name. Non-trivial: every program."),
+                    exhaustive=dict(quick=True, thorough=True),
+                    assumptions=["values and literal pieces are syntax-neutral (letters, digits, blanks, dash, dot, underscore): replacing a reference textually does not change how the line parses", "variables that refer to other variables, spread substitutions and substitutions inside arrays are not generated",
+                                 "base model: 3 nested scopes, 2 names, 2 values, every definition pattern, every use scope and quoting (26,244 programs)"],
+                    text="Resolve/Expected are the specification of substitution; TLC checks the twin statement on the model and the model against the compiler.", note="Trusted: TLC, Json module, the program writer in harness/cmd/vdrive/vars.go.")
+
+
 # ------------------------------------------------------------------------------- manifest data
 HOOK_COMMITS = ["9d004ebd4", "879b5d739"]
 
 ENGINES = {
+    "TraceD2Vars": dict(path="specs/D2Vars.tla, specs/TraceD2Vars.tla", kind="TLA+ model of scoped variable resolution and substitution (TLC: all 3-scope programs) + TLC comparison of the model with the real compiler on generated programs and their textually substituted twins"),
     "TraceD2Quote": dict(path="specs/TraceD2Quote.tla", kind="TLA+ statements of the quoting round trip (identity on code-point sequences) and of IDs as keys of a board, evaluated by TLC on the real writer/parser/compiler results"),
     "TraceD2Attrs": dict(path="specs/TraceD2Attrs.tla, specs/attr_domains.json", kind="TLA+ domain table of attribute values (InDomain) evaluated by TLC on the accept/reject verdicts and compiled values of the real compiler"),
     "TraceD2Parse": dict(path="specs/TraceD2Parse.tla", kind="TLA+ definition of source positions (PosAt) + totality contract, evaluated by TLC on the real parser's trees and errors"),
